@@ -203,12 +203,22 @@ def r4_gosub_pairing(ctx, rule="C05.R4"):
             o = mir.strip_refs(pv.of_operand(t["args"][0]))
             if o[0] == "field" and o[2] == "go_sub_address_stack":
                 per_arm.setdefault(v, []).append(mir.callee_path(t).split("::")[-1])
-    ctx.decide(per_arm.get("GoSub") == ["push"], rule, rule + ":GoSub:push", one.loc,
-               "GoSub pushes the return address",
-               "GoSub arm does %s on go_sub_address_stack" % per_arm.get("GoSub"))
-    ctx.decide(per_arm.get("Return") == ["pop"], rule, rule + ":Return:pop", one.loc,
-               "Return pops the most recent address",
-               "Return arm does %s on go_sub_address_stack" % per_arm.get("Return"))
+    from .. import vm as vmmod
+    V = vmmod.VM(prog)
+    eff, _one = V.instruction_effects()
+    gi = vmmod.DIMS.index("gosub")
+    gos = sorted({v[gi] for v in eff.get("GoSub", [])})
+    ret = sorted({v[gi] for v in eff.get("Return", [])})
+    ctx.decide(gos == [1], rule, rule + ":GoSub:push", one.loc,
+               "GoSub pushes exactly one return address on every path",
+               "the GoSub arm changes go_sub_address_stack by %s on its paths (want +1)" % gos)
+    ctx.decide(ret == [-1], rule, rule + ":Return:pop", one.loc,
+               "every non-failing path of Return pops exactly one address",
+               "the Return arm changes go_sub_address_stack by %s on its non-failing paths (want -1 on "
+               "every path): a GOSUB left through RETURN stays pending" % ret)
+    MUTATING = ("push", "pop", "insert", "remove", "clear", "truncate", "drain", "swap_remove", "retain", "append")
+    per_arm = {v: [m for m in ms if m in MUTATING] for v, ms in per_arm.items()}
+    per_arm = {v: ms for v, ms in per_arm.items() if ms}
     others = {v: m for v, m in per_arm.items() if v not in ("GoSub", "Return")}
     ctx.decide(not others, rule, rule + ":no-other-arm", one.loc, "no other arm touches the stack",
                "arms %s also touch go_sub_address_stack" % sorted(others))
